@@ -306,6 +306,25 @@ def handleFault (focus : String) (c : Case) : String := Id.run do
       -- was a failing call index reached while `fit` ran?
       let hit := max failFrom fitStart < min failTo fitEnd && failFrom < hugeN
       acc := { acc with compared := acc.compared + 1, nontrivial := acc.nontrivial || hit }
+      -- C04 under faults: `fit` (without statistics) is Ok exactly when the termination it REPORTS is a successful one
+      if !withStats && (kind == "ok") != term.wasSuccessful then
+        acc := { acc with mon := acc.mon.push s!"fit-returned-{kind}-with-reported-termination-{termS}" }
+      -- the accessors of the fit result are views of the returned problem
+      if let some fl := c.firstWith "fr" then
+        let steps := parseSteps c
+        if steps.size > 0 then
+          let lastO := (steps[steps.size - 1]!).get "impl"
+          let frCoef := attrStr fl "coef"
+          match lastO.coef with
+          | some (some cm) =>
+            if frCoef == "none" then acc := { acc with mon := acc.mon.push "FitResult::linear_coefficients()-absent-but-problem-has-coefficients" }
+            else if frCoef != (floatsStr cm.a).replace " " "," then
+              acc := { acc with mon := acc.mon.push "FitResult::linear_coefficients()-differs-from-the-problem's" }
+          | some none =>
+            if frCoef != "none" then acc := { acc with mon := acc.mon.push "FitResult::linear_coefficients()-present-but-problem-has-none" }
+          | none => pure ()
+          if frCoef == "none" && attrStr fl "bestfit" != "none" then
+            acc := { acc with mon := acc.mon.push "FitResult::best_fit()-present-without-coefficients" }
       if hit then
         if kind == "ok" then
           acc := { acc with mon := acc.mon.push s!"fit-returned-Ok-although-model-call-{max failFrom fitStart}-failed-during-the-fit({termS})" }
